@@ -644,8 +644,8 @@ def callsites(chk, tmp):
     chk.notes.setdefault("input_distribution", {})["cli_callsites"] = dist
 
 # ------------------------------------------------------------------------------------------------
-def run(chk):
-    proofs_ok = core.standard_proof_phase(chk, "C10")
+def _component_run(chk):
+    proofs_ok = core.standard_proof_phase(chk, "C10", gen_needed=())
     import logging
     logging.disable(logging.CRITICAL)
     tmp = tempfile.mkdtemp(prefix="verif_c10_")
@@ -670,7 +670,7 @@ def run(chk):
                         "a process killed between the two file writes of one serialize is C11's subject, not modelled here"]
 
 
-def replay(path):
+def _component_replay(path):
     """Re-run the recorded operation sequence on the real code and print what happens."""
     core.ensure_env()
     obj = json.load(open(path))
@@ -681,3 +681,25 @@ def replay(path):
         for op, (r, d, wd) in zip(obj["ops"], res["steps"]):
             print(op, "->", r, d, "marker" if wd else "")
     return 0
+
+
+# ------------------------------------------------------------------------------------------------
+# system level (added by the coordinator): the real code in the virtual cluster, impl traces accepted
+# by System.step, Coq monitors and Python oracles (harness/syscheck.py)
+def run(chk):
+    _component_run(chk)
+    from harness import syscheck
+    core.extra_props_phase(chk, "C10_system")
+    syscheck.system_phase(chk, "C10", {'plain': 5, 'cancel': 2, 'kill': 2, 'squeuefail': 1}, n_quick=120, n_thorough=2500, also=())
+
+
+def replay(path):
+    import json as _json
+    try:
+        obj = _json.load(open(path))
+    except Exception:  # noqa
+        obj = {}
+    if isinstance(obj, dict) and "scenario" in obj and "schedule" in obj and "plan" in obj:
+        from harness import syscheck
+        return syscheck.replay_case(path)
+    return _component_replay(path)
